@@ -130,7 +130,8 @@ extern "C" void harness_queries()  /* vf: bounds=query_forms_of_the_property(A[]
     vf_assert(cx.declare(DECLS) == 0, "declarations-accepted");
     int form = vf_pick("form", 36);
     static const char* BOUND[] = {"<=10", "#<=10", "x<=10"};
-    std::string bnd = BOUND[vf_pick("bound", 3)], runs = vf_pick("!runs", 2) ? "; 7" : "", pq = vf_pick("!box", 2) ? "[]" : "<>", cmp = vf_pick("!le", 2) ? "<=" : ">=";
+    static const char* RUNS[] = {"", "; 7", "; 0", "; 1"};   // no run count, and counts including the boundary values
+    std::string bnd = BOUND[vf_pick("bound", 3)], runs = RUNS[vf_pick("!runs", 4)], pq = vf_pick("!box", 2) ? "[]" : "<>", cmp = vf_pick("!le", 2) ? "<=" : ">=";
     // file names as they are written in a query: a backslash is written twice (the lexer's string token cannot contain a double quote at all)
     static const char* FNAMES[] = {"path", "dir/strategy.json", "C:\\\\dir\\\\s.json", "a b", "tail\\\\"};
     std::string fname = FNAMES[(form == 28 || form == 29) ? vf_pick("!file_name", 5) : 0];
